@@ -266,6 +266,33 @@ def run(ctx: Ctx, env):
             ctx.check(rec, "R4.relationship-recorded-for-join", "orm.visit_Attribute", "visit_Attribute returns a column of the related class without recording the "
                       "relationship to join", p.entry.get("where", ""), "author/name eq 'A'")
 
+    # the relationships a lambda *body* navigates are recorded on the sub-visitor that translates the body; whoever creates that sub-visitor
+    # has to pick them up, or the tables the body refers to stand in the subquery without a join condition
+    join_attr = None
+    r_attr = repo.lookup_method(ORM, "visit_Attribute")
+    if r_attr is not None:
+        for n in ast.walk(r_attr[1]):
+            if isinstance(n, ast.Call) and isinstance(n.func, ast.Attribute) and n.func.attr in ("append", "add", "extend", "insert") and \
+                    isinstance(n.func.value, ast.Attribute) and isinstance(n.func.value.value, ast.Name) and n.func.value.value.id == "self":
+                join_attr = n.func.value.attr
+    r_cl = repo.lookup_method(ORM, "visit_CollectionLambda")
+    if join_attr and r_cl is not None:
+        cci, cfn = r_cl
+        subs = set()
+        for n in ast.walk(cfn):
+            if isinstance(n, ast.Assign) and isinstance(n.value, ast.Call):
+                f = ast.unparse(n.value.func)
+                if f in ("self.__class__", "type(self)", ORM.rsplit(".", 1)[-1]):
+                    subs |= {t.id for t in n.targets if isinstance(t, ast.Name)}
+        if subs:
+            used = any(isinstance(n, ast.Attribute) and n.attr == join_attr and isinstance(n.value, ast.Name) and n.value.id in subs for n in ast.walk(cfn)) or \
+                any(isinstance(n, ast.Call) and any(isinstance(a, ast.Name) and a.id in subs for a in n.args) and
+                    not (isinstance(n.func, ast.Attribute) and isinstance(n.func.value, ast.Name) and n.func.value.id in subs) for n in ast.walk(cfn))
+            ctx.check(used, "R4.joins-of-the-lambda-body-are-applied", "orm.visit_CollectionLambda",
+                      f"the sub-visitor that translates the lambda body records the relationships the body navigates in `{join_attr}`, but "
+                      f"visit_CollectionLambda never looks at them: the related table appears in the EXISTS subquery without a join condition "
+                      "(every row of it matches)", cci.module.loc(cfn), "comments/any(c: c/author/name eq 'Gorilla')")
+
     # ---- (5) Django path spelling --------------------------------------------------------------------------------------------
     for p in H.eval_visit(DJ, "Attribute") or []:
         if p.outcome != "return":
